@@ -209,8 +209,8 @@ def gen_job(seed, profile="general"):
             extra.append({"type": "SolidBodyForce", "values": [0.0] * fd, "scale": rfloat(r, 0.5, 2.0), "_top": [rfloat(r, -0.1, 0.1) for _ in range(fd)]})
         else:
             extra.append({"type": "SolidBodyPressure", "face": {"mask_axis": 1, "mask_value": "max"}, "pressure": 0.0, "_top": rfloat(r, -0.1, 0.1)})
-    if profile == "tangent":
-        # richer item mix for the tangent check: constraints, contact, Cauchy-stress load, form items
+    if profile == "tangent" or (profile == "general" and r.random() < 0.25):
+        # richer item mix (always for the tangent check): constraints, contact, Cauchy-stress load, form items
         fd = 2 if dim == 2 else 3
         quadhex = mesh.get("convert") in (None, "quadratic", "triquadratic", "biquadratic")
         pick = r.choice(["mpc", "contact", "cauchy", "form", "pressure", "none"])
